@@ -68,28 +68,46 @@ def add(name, prop, patch, demo, meta_txt, test=None):
         shutil.rmtree(wt, ignore_errors=True)
 
 
-def run(name, checks, tier="quick"):
+def run(name, checks, tier="quick", inplace=False):
+    """inplace=True: the documented procedure (git -C /repo apply; run; git -C /repo checkout -- .).
+    Default: the same patch applied to a scratch worktree of /repo HEAD that the checks are pointed at through the
+    internal VERIF_REPO override, so that several seeded changes can be tried while /repo itself stays untouched."""
     d = os.path.join(VERIF, "seeded", name)
     meta = json.load(open(os.path.join(d, "meta.json")))
-    rc, out = sh("git -C /repo status --porcelain")
-    assert out.strip() == "", "/repo not clean: " + out
-    rc, out = sh("git -C /repo apply %s" % os.path.join(d, "patch.diff"))
-    if rc != 0:
-        print("patch does not apply:", out)
-        return
+    env = dict(ENV)
+    if inplace:
+        rc, out = sh("git -C /repo status --porcelain")
+        assert out.strip() == "", "/repo not clean: " + out
+        rc, out = sh("git -C /repo apply %s" % os.path.join(d, "patch.diff"))
+        assert rc == 0, out
+        wt = None
+    else:
+        wt = tempfile.mkdtemp(prefix="seedrun-")
+        os.rmdir(wt)
+        rc, out = sh("git -C /repo worktree add -q --detach %s HEAD" % wt)
+        assert rc == 0, out
+        rc, out = sh("git apply %s" % os.path.join(d, "patch.diff"), cwd=wt)
+        assert rc == 0, out
+        env["VERIF_REPO"] = wt
+        env["VERIF_EVIDENCE_DIR"] = os.path.join(wt, ".verif-evidence")
+        env["VERIF_REPLAY_DIR"] = os.path.join(wt, ".verif-replays")
     try:
         for c in checks:
             t0 = time.time()
-            rc, out = sh("./check %s %s" % (c, tier), cwd=VERIF, timeout=7200)
+            r = subprocess.run("./check %s %s" % (c, tier), shell=True, cwd=VERIF, env=env, capture_output=True, text=True, timeout=14400)
+            rc, out = r.returncode, r.stdout + r.stderr
             viol = [l for l in out.splitlines() if l.startswith("VIOLATION")]
-            detail = [l for l in out.splitlines() if l.startswith("  H") or "INCONCLUSIVE" in l][:6]
+            detail = [l.strip()[:300] for l in out.splitlines() if l.startswith("  H") or l.startswith("  C") or "INCONCLUSIVE" in l][:6]
             verdict = "DETECTED" if rc == 1 and viol else ("inconclusive" if rc == 2 else ("missed" if rc == 0 else "rc=%d" % rc))
-            print("%-28s %s %s -> %s (%.0fs) %s" % (name, c, tier, verdict, time.time() - t0, detail[:2]))
-            meta["checks_run"]["%s %s" % (c, tier)] = {"verdict": verdict, "exit": rc, "detail": detail, "wall_s": round(time.time() - t0, 1)}
+            print("%-12s %s %s -> %s (%.0fs) %s" % (name, c, tier, verdict, time.time() - t0, detail[:1]), flush=True)
+            meta["checks_run"]["%s %s" % (c, tier)] = {"verdict": verdict, "exit": rc, "detail": detail, "wall_s": round(time.time() - t0, 1),
+                                                       "how": "git -C /repo apply; ./check; git -C /repo checkout -- ." if inplace else "patch applied to a scratch worktree of /repo HEAD, check pointed at it (VERIF_REPO)"}
     finally:
-        sh("git -C /repo checkout -- .")
-        rc, out = sh("git -C /repo status --porcelain")
-        assert out.strip() == "", "/repo not restored: " + out
+        if inplace:
+            sh("git -C /repo checkout -- .")
+        else:
+            sh("git -C /repo worktree remove --force %s" % wt)
+            shutil.rmtree(wt, ignore_errors=True)
     json.dump(meta, open(os.path.join(d, "meta.json"), "w"), indent=1)
 
 
@@ -103,7 +121,10 @@ if __name__ == "__main__":
             i = a.index("--tier")
             tier = a[i + 1]
             del a[i:i + 2]
-        run(a[1], a[2:], tier)
+        inplace = "--inplace" in a
+        if inplace:
+            a.remove("--inplace")
+        run(a[1], a[2:], tier, inplace)
     elif a[0] == "runall":
         for name in sorted(os.listdir(os.path.join(VERIF, "seeded"))):
             meta = json.load(open(os.path.join(VERIF, "seeded", name, "meta.json")))
